@@ -68,6 +68,7 @@ def decReq (built : Array TaskT) (s : String) : Option (List (TaskT × KW)) :=
 def encVal : AVal → String
   | .int i => "i" ++ toString i
   | .str s => "s" ++ encChars s
+  | .compound k ps => "c" ++ toString k ++ "." ++ ".".intercalate (ps.map toString)
 
 def ltChars : List Char → List Char → Bool
   | [], [] => false
